@@ -122,6 +122,26 @@ fn case_from_json(v: &Value) -> Option<Case> {
     })
 }
 
+/// the distinct `fail-<n>` tags occurring in an error's rendered cause chain, joined by '+'
+/// (exactly one is expected: the failing appender's own error, possibly wrapped in context)
+fn fail_tags(text: &str) -> String {
+    let mut tags: Vec<String> = vec![];
+    let mut rest = text;
+    while let Some(i) = rest.find("fail-") {
+        let digits: String = rest[i + 5..].chars().take_while(|c| c.is_ascii_digit()).collect();
+        let t = format!("fail-{}", digits);
+        if !digits.is_empty() && !tags.contains(&t) {
+            tags.push(t);
+        }
+        rest = &rest[i + 5..];
+    }
+    if tags.is_empty() {
+        format!("untagged:{}", text)
+    } else {
+        tags.join("+")
+    }
+}
+
 /// the ways a filter chain can be handed to the appender builder; all must give the declared chain
 const BUILDER_HISTORIES: [&str; 5] = [
     "filter() per filter",
@@ -227,7 +247,9 @@ fn check_history(c: &Case, history: usize) -> Option<(String, String)> {
     let logger = log4rs::Logger::new_with_err_handler(
         config,
         Box::new(move |e: &anyhow::Error| {
-            hlog.lock().unwrap().push(Event::Error { tag: format!("{}", e) });
+            // the property does not fix the wording: the appender's own error may arrive wrapped in
+            // context, so it is identified by the tag found anywhere in the cause chain
+            hlog.lock().unwrap().push(Event::Error { tag: fail_tags(&format!("{:#}", e)) });
         }),
     );
     let admitted = admits(c.logger_level, c.level);
